@@ -72,10 +72,28 @@ let () =
       (match out with
        | Wrote (_, raw, ok) -> Printf.printf "W %s %s\n" (hex_of_bytes raw) (if ok || kind = "serveL" then "ok" else "err")
        | Panicked _ -> print_endline "PANIC")
+    | ["mprt"; bd; ps] ->
+      let parts = if ps = "-" then [] else List.map (fun p -> match String.split_on_char '=' p with
+          | [h; b] -> { p_headers = (if h = "-" then [] else List.map (fun nv -> match String.split_on_char ':' nv with [n; v] -> { hname = bytes_of_hex n; hvalue = bytes_of_hex v } | [n] -> { hname = bytes_of_hex n; hvalue = [] } | _ -> failwith "hdr") (String.split_on_char '&' h)); p_body = bytes_of_hex b }
+          | _ -> failwith "part") (String.split_on_char ';' ps) in
+      let show ps = String.concat ";" (List.map (fun p -> String.concat "&" (List.map (fun h -> hex_of_bytes h.hname ^ ":" ^ hex_of_bytes h.hvalue) p.p_headers) ^ "=" ^ hex_of_bytes p.p_body) ps) in
+      if parts = [] || List.exists (fun p -> p.p_headers = []) parts then print_endline "GENERR" else begin
+        let g = multipart_generate parts (bytes_of_hex bd) in
+        Printf.printf "G %s | %s\n" (hex_of_bytes g) (match multipart_parse g (bytes_of_hex bd) with MOk ps -> "OK " ^ show ps | MErr -> "ERR" | MPanicWindows0 -> "PANIC") end
+    | ["mp"; bd] -> (match multipart_parse [] (bytes_of_hex bd) with MOk _ -> print_endline "OK " | MErr -> print_endline "ERR" | MPanicWindows0 -> print_endline "PANIC")
     | ["mp"; bd; data] ->
       (match multipart_parse (bytes_of_hex data) (bytes_of_hex bd) with
        | MOk ps -> print_endline ("OK " ^ String.concat "|" (List.map (fun p -> String.concat ";" (List.map (fun h -> hex_of_bytes h.hname ^ ":" ^ hex_of_bytes h.hvalue) p.p_headers) ^ "=" ^ hex_of_bytes p.p_body) ps))
        | MErr -> print_endline "ERR" | MPanicWindows0 -> print_endline "PANIC")
+    | [("qrt" | "furt") as k; kvs] ->
+      let pairs = if kvs = "-" then [] else List.map (fun kv -> match String.split_on_char ':' kv with [a; b] -> (bytes_of_hex a, bytes_of_hex b) | [a] -> (bytes_of_hex a, []) | _ -> failwith "kv") (String.split_on_char ';' kvs) in
+      let q = List.concat (List.mapi (fun i (a, b) -> (if i = 0 then [] else [n_of_int 38]) @ encode_uri a @ [n_of_int 61] @ encode_uri b) pairs) in
+      let show m = String.concat ";" (List.sort compare (List.map (fun (k, v) -> hex_of_bytes k ^ "=" ^ hex_of_bytes v) m)) in
+      if k = "qrt" then Printf.printf "Q %s | OK %s\n" (hex_of_bytes q) (show (parse_query q))
+      else (match form_urlencoded_parse q with Some m -> Printf.printf "Q %s | OK %s\n" (hex_of_bytes q) (show m) | None -> Printf.printf "Q %s | ERR\n" (hex_of_bytes q))
+    | ["pct"] -> print_endline "E  | D "
+    | ["pct"; t] -> let e = encode_uri (bytes_of_hex t) in Printf.printf "E %s | D %s\n" (hex_of_bytes e) (hex_of_bytes (decode_uri e))
+    | ["pq"] -> print_endline "OK "
     | ["pq"; q] ->
       let m = parse_query (bytes_of_hex q) in
       print_endline ("OK " ^ String.concat ";" (List.sort compare (List.map (fun (k, v) -> hex_of_bytes k ^ "=" ^ hex_of_bytes v) m)))
@@ -86,6 +104,19 @@ let () =
       let a = if args = "-" then [] else List.map bytes_of_hex (String.split_on_char ',' args) in
       let e = setup e0 f a in
       print_endline (String.concat ";" (List.map (fun ((_, _), v) -> string_of_bytes v ^ "=" ^ (match env_get v e with Some x -> hex_of_bytes x | None -> "<unset>")) flag_table))
+    | ["resprt"; ser; code; rsn; hs; parts] ->
+      let hl = if hs = "-" then [] else List.map (fun nv -> match String.split_on_char ':' nv with [n; v] -> { hname = bytes_of_hex n; hvalue = bytes_of_hex v } | [n] -> { hname = bytes_of_hex n; hvalue = [] } | _ -> failwith "hdr") (String.split_on_char ';' hs) in
+      let pl = if parts = "-" then [] else List.map (fun p -> match String.split_on_char ':' p with
+                 | [s; e; z; t; b] -> ((((n_of_int (int_of_string s), n_of_int (int_of_string e)), bytes_of_hex z), bytes_of_hex b), bytes_of_hex t)
+                 | _ -> failwith "part") (String.split_on_char ',' parts) in
+      let r = { pr_version = bytes_of_string "HTTP/1.1"; pr_status = n_of_int (int_of_string code); pr_reason = bytes_of_hex rsn; pr_headers = hl; pr_ranges = pl } in
+      let g = lib_generate (ser = "inst") r in
+      Printf.printf "G %s | " (hex_of_bytes g);
+      (match response_parse g with
+       | POk r -> Printf.printf "OK %s %d %s h=[%s] r=[%s]\n" (hex_of_bytes r.pr_version) (int_of_n r.pr_status) (hex_of_bytes r.pr_reason)
+                    (String.concat ";" (List.map (fun h -> hex_of_bytes h.hname ^ ":" ^ hex_of_bytes h.hvalue) r.pr_headers))
+                    (String.concat ";" (List.map (fun ((((s, e), z), b), t) -> Printf.sprintf "%s-%s/%s:%s:%s" (string_of_bytes (Model.show_N s)) (string_of_bytes (Model.show_N e)) (string_of_bytes z) (hex_of_bytes b) (hex_of_bytes t)) r.pr_ranges))
+       | PErr -> print_endline "ERR" | PPanicCL | PPanicIdx -> print_endline "PANIC")
     | ["rp"; h] ->
       (match response_parse (bytes_of_hex h) with
        | POk r -> Printf.printf "OK %s %d %s h=[%s] r=[%s]\n" (hex_of_bytes r.pr_version) (int_of_n r.pr_status) (hex_of_bytes r.pr_reason)
